@@ -92,6 +92,15 @@ def build_items(tier, seed, wd):
         files = sorted(set(f for r in (untested if tier == "quick" else rules) for f in inputs.get(r, []) if f.endswith("_test_input.vhd"))) + [p for p in paths if "/styles/code_examples/" in p and p.endswith(".vhd")]
         for p in (corpus.stratified_sample(files, 150, seed + 61 + k, always=("/styles/code_examples/",)) if tier == "quick" else files):
             add(p, ["--fix", "-c", cfgfile], tag)
+    # the example configurations the documentation shows (docs/*.rst code blocks), merged into a few whole configurations
+    bundles = configs.doc_example_bundles()
+    for k, (cfg, rids, names) in enumerate(bundles if tier == "thorough" else bundles[:3]):
+        tag = "docex%d" % (k + 1)
+        sweeps[tag] = cfg["rule"]
+        cfgfile = configs.write_config(cfg, os.path.join(wd, tag + ".json"))
+        files = sorted(set(f for r in rids for f in inputs.get(r, []) if f.endswith("_test_input.vhd"))) + [p for p in paths if "/styles/code_examples/" in p and p.endswith(".vhd")]
+        for p in (corpus.stratified_sample(files, 90, seed + 71 + k, always=("/styles/code_examples/",)) if tier == "quick" else files):
+            add(p, ["--fix", "-c", cfgfile], tag)
     # prefix / suffix exceptions of the case rules with a broad list of affixes, on files whose identifiers carry them
     for cname in (["upper"] if tier == "quick" else ["upper", "lower"]):
         cfg, rules = configs.affix_config(table, cname)
@@ -143,10 +152,10 @@ def build_items(tier, seed, wd):
     base_inputs = [p for p in paths if p.endswith("_test_input.vhd") or "/styles/code_examples/" in p or "/rule_doc/" in p]
     # comments at every line end / between all lines, case, spacing.  (Line-break and join recipes are used for C05 -
     # classification - where the property names them; see DESIGN.md section 5 for why the fix family leaves them out.)
-    recipes = ["eol1", "eolt1", "own1", "upper", "widen", "tight", "lopl", "ownutf8a"] if tier == "quick" else ["lopl", "lopr", "eol1", "eolt1", "eol3a", "eol3b", "own1", "own3", "upper", "lower", "flip", "widen", "narrow", "tight", "tight2a", "tight2b", "ownutf8a", "ownutf8b", "ownutf8c"]  # not: break*, join*, breakcmt*
+    recipes = ["eol1", "eolt1", "own1", "upper", "widen", "tight", "lopl", "ownutf8a", "ownctl"] if tier == "quick" else ["lopl", "lopr", "eol1", "eolt1", "eol3a", "eol3b", "own1", "own3", "upper", "lower", "flip", "widen", "narrow", "tight", "tight2a", "tight2b", "ownutf8a", "ownutf8b", "ownutf8c", "ownctl"]  # not: break*, join*, breakcmt*
     for ri, rname in enumerate(recipes):
         nsel = 80 if tier == "quick" else len(base_inputs)
-        if rname.startswith("ownutf8"):
+        if rname.startswith(("ownutf8", "ownctl")):
             nsel = 30 if tier == "quick" else 300      # non-ASCII text in front of the file (file > 8 KiB, multi-byte characters across block boundaries)
         chosen = corpus.stratified_sample(base_inputs, nsel, seed + 17 * (ri + 1), always=("/styles/code_examples/",))
         for p in chosen:
